@@ -149,6 +149,13 @@ def gen_sort_cases(ctx, nrng, fn):
                 sigma = list(range(n))
                 ctx.rng.shuffle(sigma)
                 items = ctx.rng.sample(range(-500, 1000), n)
+                # two thirds of the item lists contain the item 0 (0-based mode ids; a falsy element among others)
+                style = ctx.rng.randrange(3)
+                if style == 0:
+                    items = list(range(n))
+                    ctx.rng.shuffle(items)
+                elif style == 1 and 0 not in items:
+                    items[ctx.rng.randrange(n)] = 0
                 if kind in ("planted", "partial"):
                     target = numpy.zeros((n, n), dtype=complex if cplx else float)
                     for i in range(n):
